@@ -54,7 +54,15 @@ def run(tier):
                 o["r"]["mm_payload"] = [rng2.getrandbits(8) for _ in range(rng2.choice([3000, 20000]))]
         th.append(h)
     m4 = run_threads(chk, "plain", 16, 2, th, "c14t", relevant={"C14"})
-    chk.distinct = m["execs"] + m2["execs"] + m3["execs"] + m4["execs"]
+    # two compressed exporters of the same kind alive at once on ONE thread, operated alternately, both rotating: what a
+    # writer needs for its stream is its own (nothing parked for, or taken over from, another writer)
+    from checks.exporter_common import run_interleaved
+    il = []
+    for i in range(24 if tier == "quick" else 300):
+        il.append(histgen.gen_history(rng2, nops=rng2.choice([12, 30]), comp=["gz", "xz", "xz"][(i // 2) % 3], out=["file", "fd"][(i // 2) % 2],
+                                      sizes=[2, 10000], rot=True))
+    m5 = run_interleaved(chk, il, {"C14"}, label="c14i")
+    chk.distinct = m["execs"] + m2["execs"] + m3["execs"] + m4["execs"] + m5["execs"]
     return chk.finish()
 
 
